@@ -11,6 +11,8 @@ CHECK = {
         "sizes: thresholds are looked for at powers of two 2^10..2^20 (thorough 2^22), one byte (thorough two) either side, measured on the examined unit (error body, end-stream payload, trailer block, field set rendered as lines) and, for enveloped formats, also on the envelope; limits at other values or beyond 1 MiB (4 MiB) are outside the bound; the large detail is a StringValue (go-cmp walks a bytes field element by element, 0.6 s per 256 KiB)",
         "encodings (round 4): the verdict about a compressed unary error body / end-stream message / trailer block is taken to be a function of its CONTENT: every encoding the codec's own specification allows (RFC 1952 multi-member gzip and optional header fields, RFC 8878 concatenated and skippable zstd frames, several deflate / brotli blocks, snappy framing with repeated stream identifier, uncompressed, padding and reserved skippable chunks) must draw the feedback of the plain content; legality of every variant is established by decoding it with the codec library itself (compress/gzip, compress/zlib, klauspost zstd, andybalholm brotli, golang/snappy: trusted), not with internal/compression; contents are 7 + 7 + 9 fixed documents of 2..~330 bytes, split into two pieces at every offset and into three at up to 28 representative offset pairs; preset dictionaries, contents above one block / window, and gRPC-Web 'text' (base64) bodies are outside the bound",
         "spellings (round 4): legal Content-Type spellings are those of RFC 9110 section 8.3 (case-insensitive type/subtype, parameters, optional blanks around ';', quoted values) and the protocols' own codec suffixes; the spelling must not create feedback (a response draws what it draws under the canonical spelling, or nothing where the code leaves it unexamined); responses carrying HTTP trailers are crossed only with the spellings of the gRPC grammar ('application/grpc' ['+' codec]) because gRPC defines its content type literally and the examiner reports trailers on anything else by design; leading / trailing blanks of the whole value (removed by any HTTP parser) and several Content-Type fields are not enumerated",
+        "typeurls (round 5): google/protobuf/any.proto asks of a type URL only that it contains a '/' and that its last path segment is the full type name; every prefix ending in '/' (default, other host, host with path, several segments, scheme, bare '/') therefore names the same type, in the '@type' of a debug member in Any form, in grpc-status-details-bin and inside detail messages; a URL without any '/' is run for robustness and route agreement only; details whose own JSON form accepts arbitrary members or is itself an Any (Struct, Any) are crossed with the message form of the debug member only (the examiner cannot tell the two forms apart for them, see its NOTE)",
+        "statuses (round 5): a Connect unary response with any HTTP status other than 200 and Content-Type application/json carries the Error JSON (Connect protocol, Unary-Response; connect-go reads it so); statuses 201..599 that can carry a body (not 204 / 304), no Location header; statuses below 200 and above 599 are outside the bound; the verdict about the body is taken not to depend on the status",
         "arbitrary input is bounded: all byte strings of length <= 2, all strings of length <= 4 (quick) / 5 (thorough) over a 13-symbol JSON/trailer alphabet, plus typed grammars; longer arbitrary input is outside the bound (DESIGN.md §5)",
         "detail types are registered ones (the property's quantifier); unregistered types with a debug member are exercised for robustness only",
     ],
@@ -50,7 +52,13 @@ CHECK = {
                 "(9) spellings (round 4): 29 kinds of response (the 14 judged responses of (6) + unary errors identity / gzip / cut short / unknown code, 200 JSON success, HTML error page, gzip-compressed end-stream and trailer block, gRPC trailers-only and HTTP trailers, well-formed and malformed) "
                 "x 21 spellings of their Content-Type (parameters charset / boundary / two / empty, quoted value, blank before ';', upper-case parameter name; UPPER / Title / mIXED case; case + parameter; codec suffixes +json / +proto / +custom / none) "
                 "x delivery {whole, byte by byte} x for unary errors 17 non-200 statuses (1431 cases quick, 2770 thorough), through the complete pipeline (the capturing transport, the tracer and the examiner each decide on that header). "
-                "Oracle: the response draws the feedback it draws under the canonical spelling or none at all; a well-formed one never draws any.",
+                "Oracle: the response draws the feedback it draws under the canonical spelling or none at all; a well-formed one never draws any."
+                " (10) typeurls (round 5): the prefix of every type URL a rendering contains as an axis: 8 prefixes (default, other host, host with path, several path segments, bare '/', scheme, default twice, none) "
+                "for the details' Any (debug member in Any form with '@type', grpc-status-details-bin, the Any handed to connect-go's ErrorWriter and the repository's trailer encoders) x 8 prefixes inside detail messages (Any detail, google.rpc.Status details) "
+                "x 9 detail types (+ pairs) x debug member in message form / Any form / Any form naming another type / Any form with other content; every grid point through all ~25 renderings of the well-formed stage, the hand-built trace and the complete capture pipeline "
+                "(unary body, end-of-stream message, gRPC-Web block): 688 grid points / 14k cases quick. Oracle: agreeing debug member -> silence whatever the prefix; other type or other content -> feedback; pipeline = direct call. "
+                "(11) statuses (round 5): HTTP status x unary error body: all 397 statuses of 201..599 that may carry a body x every body class (well-formed renderings; the 22 malformation classes of (3)), every single malformed body x 34 boundary statuses (201, 203, 299, 300, 302, 399, 400, 404, 499, 500, 503, 599 ...), "
+                "over the scripted transport and, for the boundary statuses, over a REAL loopback HTTP round trip (httptest server, the client's capturing transport on http.Transport): ~25k cases quick. Oracle: feedback equals that of the examiner called directly on the body; none if well-formed, >= 1 message if malformed.",
         "note": "Oracle independent of the examiners; well-formed = what the specs allow (a raw leading/trailing blank in grpc-message is allowed by the gRPC grammar). "
                 "The unexported server encoders are reached through a build-tag-guarded export shim that exists only in the overlay (harness/referenceclient/c13_srvexport.go).",
         "design_ref": "DESIGN.md §2.2, §4 C13, §5",
@@ -60,7 +68,8 @@ CHECK = {
             "name": "c13-enum", "pkg": RC,
             "harness": [H + "c13_test.go", H + "c13_common_test.go", H + "c13_wellformed_test.go",
                         H + "c13_server_test.go", H + "c13_malformed_test.go", H + "c13_robust_test.go",
-                        H + "c13_history_test.go", H + "c13_encodings_test.go", H + "c13_spelling_test.go"],
+                        H + "c13_history_test.go", H + "c13_encodings_test.go", H + "c13_spelling_test.go",
+                        H + "c13_typeurl_test.go", H + "c13_status_test.go"],
             # overlay-only file in the server package: exported wrappers of grpcStatusTrailers / grpcWebStatusEndStream
             "extra_files": {"internal/app/referenceserver/zz_verif_c13_srvexport.go": "harness/referenceclient/c13_srvexport.go"},
             "test": "^TestVerifC13$",
